@@ -35,7 +35,8 @@ META = dict(
     stubs=['SinkStream (write-only, fileno unsupported like BytesIO)', 'struct.pack model', 'SymStr.encode: UTF-8 with a fork per '
            'byte-length class'],
     assumptions=['TDMS layout rules as stated in the property (raw data index length 20, 28 for strings)'],
-    buckets=dict(all=['string-channel', 'multibyte-string', 'symbolic-int-property', 'index-stream', 'two-sessions', 'empty-array']),
+    buckets=dict(all=['string-channel', 'multibyte-string', 'symbolic-int-property', 'index-stream', 'two-sessions', 'empty-array',
+                      'path-writer-append']),
     replays_per_signature=3,
     validate_samples=8,
 )
@@ -103,6 +104,8 @@ def tasks(tier, seed):
     for a, b in pairs:
         ts.append(dict(sessions=[[a, b]], versions=[4713], index=True))
         ts.append(dict(sessions=[[a], [b]], versions=[4712, 4712], index=(TEMPLATES.index(a) % 2 == 0)))
+    for segs in (['full', 'one-chan'], ['one-chan', 'str-chan', 'two-groups'], ['str-props', 'dt-chan']):
+        ts.append(dict(kind='paths', segs=segs, sessions=[segs], versions=[4712], index=True))
     if tier == 'thorough':
         for a, b, c in [(x, y, z) for x in TEMPLATES[:6] for y in TEMPLATES[4:9] for z in TEMPLATES[::3]]:
             ts.append(dict(sessions=[[a, b, c]], versions=[4712], index=True))
@@ -153,7 +156,83 @@ def check_streams(data_items, index_items, with_index):
     return problems, segs
 
 
+class _PathSink:
+    """file handle of the virtual file system used for path-based writers: 'w' truncates, 'a' appends"""
+
+    def __init__(self, store, path, mode):
+        self.store, self.path, self.closed = store, path, False
+        if 'w' in mode or path not in store:
+            store[path] = []
+
+    def write(self, b):
+        if self.closed:
+            raise ValueError('write to closed file')
+        self.store[self.path].extend(list(b))
+        return len(b)
+
+    def read(self, *a):
+        import io
+        raise io.UnsupportedOperation('read')
+
+    def flush(self):
+        pass
+
+    def fileno(self):
+        import io
+        raise io.UnsupportedOperation('fileno')
+
+    def close(self):
+        self.closed = True
+
+
+def _run_paths(task):
+    """TdmsWriter given a PATH (model of open()): sessions in 'w' then 'a' mode, index_file=True -> <path>_index"""
+    import builtins
+    from nptdms.writer import TdmsWriter
+    from .. import dispatch
+
+    def fn(ctx):
+        store, handles = {}, []
+
+        def vopen(path, mode='r', *a, **k):
+            h = _PathSink(store, str(path), mode)
+            handles.append(h)
+            return h
+        dispatch.OVERRIDES[builtins.open] = vopen
+        try:
+            prog = wr.Program(ctx)
+            segs = [template(n, ctx.choice, i, free=False) for i, n in enumerate(task['segs'])]
+            with_index = bool(ctx.choice('index', 2))
+            P = '/vfs/out.tdms'
+            with TdmsWriter(P, 'w', index_file=with_index) as w:
+                w.write_segment([prog.obj(o) for o in segs[0]])
+            with TdmsWriter(P, 'a', version=4712, index_file=with_index) as w:
+                for sg in segs[1:]:
+                    w.write_segment([prog.obj(o) for o in sg])
+        finally:
+            dispatch.OVERRIDES.pop(builtins.open, None)
+        ctx.obligations += 1
+        if any(not h.closed for h in handles):
+            ctx.fail('structure', problems=['writer left a file handle open'])
+        if sorted(store) != sorted([P] + ([P + '_index'] if with_index else [])):
+            ctx.fail('structure', problems=['files written: %r' % sorted(store)])
+        problems, parsed = check_streams(store[P], store.get(P + '_index'), with_index)
+        if problems:
+            ctx.fail('structure', problems=problems[:4])
+        if len(parsed) != len(segs):
+            ctx.fail('structure', problems=['%d segments written by %d calls' % (len(parsed), len(segs))])
+        ctx.discharged += 1
+        ctx.note('path-writer-append')
+
+    st = explore(fn, max_paths=5000, time_budget=600)
+    st.pop('wall_s', None)
+    return st
+
+
 def run_task(task):
+    if task.get('kind') == 'paths':
+        return _run_paths(task)
+
     def fn(ctx):
         sessions = gen_program(task, ctx.choice)
         ctx.info['program'] = str(sessions)[:400]
@@ -208,7 +287,11 @@ def signature(c):
     return 'C08/structure/%s' % key
 
 
-def concretize_program(task, inp):
+def concretize_objects(task, inp):
+    return concretize_program(task, inp, _objects_only=True)
+
+
+def concretize_program(task, inp, _objects_only=False):
     """the same program with the model's concrete values (for the plain-package replay)"""
     import numpy as np
     from nptdms.writer import TdmsWriter, RootObject, GroupObject, ChannelObject
@@ -263,6 +346,8 @@ def concretize_program(task, inp):
         else:
             arr = wr.planted(tag, n, state['k'])
         return ChannelObject(g, c, arr, {n_: pval(path, n_, k) for n_, k in pspec} or None)
+    if _objects_only:
+        return [[obj(o) for o in seg] for ses in sessions for seg in ses['segments']]
     for ses in sessions:
         with TdmsWriter(data, version=ses['version'], index_file=index if task['index'] else False) as w:
             for seg in ses['segments']:
@@ -277,6 +362,8 @@ def concretize_program(task, inp):
 
 def replay(art):
     task, inp = art['task'], art['inputs']
+    if task.get('kind') == 'paths':
+        return _replay_paths(task, inp)
     try:
         data, index = concretize_program(task, inp)
     except Exception as e:
@@ -285,3 +372,35 @@ def replay(art):
     if problems:
         return dict(sig=signature(dict(task=task, what='structure', problems=problems)), problems=problems[:4])
     return None
+
+
+def _replay_paths(task, inp):
+    """real files in a temporary directory"""
+    import os
+    import shutil
+    import tempfile
+    from nptdms.writer import TdmsWriter
+    d = tempfile.mkdtemp(prefix='vf_c08_')
+    try:
+        t2 = dict(task, sessions=[[n] for n in task['segs']], versions=[4712] * len(task['segs']))
+        sessions = gen_program(dict(task, sessions=[task['segs']]), lambda name, n: inp.get(name, 0))
+        # rebuild concrete objects through the same helper as concretize_program by writing session-wise to real paths
+        import numpy as np
+        P = os.path.join(d, 'out.tdms')
+        with_index = bool(inp.get('index', 0))
+        progs = concretize_objects(dict(task, sessions=[task['segs']], index=False), inp)
+        with TdmsWriter(P, 'w', index_file=with_index) as w:
+            w.write_segment(progs[0])
+        with TdmsWriter(P, 'a', index_file=with_index) as w:
+            for objs in progs[1:]:
+                w.write_segment(objs)
+        data = open(P, 'rb').read()
+        index = open(P + '_index', 'rb').read() if with_index else None
+        if (not with_index) and os.path.exists(P + '_index'):
+            return dict(sig='C08/structure/other', problems=['index file written although not requested'])
+        problems, segs = check_streams(list(data), list(index) if index is not None else None, with_index)
+        if problems:
+            return dict(sig=signature(dict(task=task, what='structure', problems=problems)), problems=problems[:4])
+        return None
+    finally:
+        shutil.rmtree(d, ignore_errors=True)
